@@ -427,6 +427,48 @@ def strat_drawn(tier):
     return st.fixed_dictionaries({"drawing": st.fixed_dictionaries({"frags": st.lists(frag, min_size=1, max_size=3), "caption": st.booleans()}), "ops": ops, "seed": st.integers(0, 10**6)})
 
 
+_RESOLVE_CACHE = {}
+
+
+def _resolve_label(path, key):
+    """id of the fragment a bold-face label names, from the drawing alone; None when the drawing is ambiguous (label drawn twice,
+    two candidate fragments at practically the same distance, label inside a group that also holds its fragment: grouped pairs are
+    a separate rule of the format)"""
+    st_ = os.stat(path)
+    ck = (path, st_.st_mtime_ns, st_.st_size)
+    if ck not in _RESOLVE_CACHE:
+        root = ET.parse(path).getroot()
+        frs = [f for f in root.findall("./page/fragment") + root.findall("./page/group/fragment") if any(c.tag == "b" for c in f)]
+
+        def pos(e):
+            if e.get("BoundingBox"):
+                l, t, r, b = map(float, e.get("BoundingBox").split())
+                return (l + r) / 2, (t + b) / 2
+            x, y = map(float, e.get("p").split()[:2])
+            return x, y
+
+        table = {}
+        seen = set()
+        for t in root.findall("./page/t") + root.findall("./page/group/t"):
+            ss = t.findall("./s")
+            if len(ss) != 1 or ss[0].get("face", "0") != "1":
+                continue
+            lbl = ss[0].text
+            if lbl in seen:
+                table[lbl] = None
+                continue
+            seen.add(lbl)
+            lx, ly = pos(t)
+            cands = sorted((abs(pos(f)[0] - lx) + abs(pos(f)[1] - ly), f.get("id")) for f in frs if pos(f)[1] < ly)
+            if not cands or (len(cands) > 1 and cands[1][0] - cands[0][0] < 1e-6):
+                table[lbl] = None
+            else:
+                table[lbl] = cands[0][1]
+        _RESOLVE_CACHE.clear()
+        _RESOLVE_CACHE[ck] = table
+    return _RESOLVE_CACHE[ck].get(key)
+
+
 def _open(path):
     import molli as ml
 
@@ -501,6 +543,12 @@ def check(recipe) -> list[Fail]:
                 continue
             # -- constitution vs the independent walk of the same (variant) file
             frag_el = var.xfrag_cache[key]
+            # -- which fragment a label names, decided from the drawing by the harness: the fragment drawn above the label that is
+            #    nearest to it (city-block distance between the label and the centre of the fragment's bounding box)
+            own = _resolve_label(path, key)
+            if own is not None and own != frag_el.get("id"):
+                fails.append(Fail("label-resolves-to-a-fragment-other-than-the-one-drawn-above-it", f"{where}: the drawing puts the label under fragment id {own}, molli resolved it to id {frag_el.get('id')}", recipe=sub))
+                continue
             if intended is not None and "renumber" not in ops and frag_el.get("id") != intended[key]:
                 fails.append(Fail("label-resolves-to-another-fragment", f"{where}: label drawn under fragment id {intended[key]}, resolved to fragment id {frag_el.get('id')}", recipe=sub))
                 continue
